@@ -19,6 +19,7 @@ type procModel struct {
 	stdinLines int
 	stdinNL    bool // last line ends with a newline
 	fileOK     bool
+	fileDir    bool // the script path names a directory (exists, cannot be read as a file)
 	fileText   StrV
 	catchDepth int
 	lineText   []StrV
@@ -222,6 +223,11 @@ func (w *Worker) harnessIntrinsic(st *State, f *Frame, x ssa.Value, name string,
 			panic(engineErr("verifSetFile: concrete flag expected"))
 		}
 		p.fileOK, p.fileText = b, args[1].(StrV)
+		if c, isC := p.fileText.concrete(); !b && isC && c == "<dir>" {
+			p.fileDir = true
+		} else {
+			p.fileDir = false
+		}
 	case "verifRunMain":
 		mainPkg := w.e.pkgs["main"]
 		if mainPkg == nil || mainPkg.Func("main") == nil {
@@ -437,6 +443,10 @@ func (w *Worker) osReadFile(st *State, set func(Value), path StrV) {
 	byteSlice := types.NewSlice(types.Typ[types.Byte])
 	_ = byteSlice
 	if !p.fileOK {
+		if p.fileDir {
+			set(Tuple{SliceV{}, w.mkErr(st, strLit("read: is a directory"))})
+			return
+		}
 		set(Tuple{SliceV{}, w.mkErr(st, strLit("open: no such file or directory"))})
 		return
 	}
